@@ -43,6 +43,11 @@ pub fn ignore_filter(entry: &DirEntry, ignore: &Option<Gitignore>) -> bool {
     match ignore {
         None => true,
         Some(gi) => {
+            // The source root itself is not an entry of its own
+            // .gitignore (its name may well match a pattern).
+            if entry.depth() == 0 {
+                return true;
+            }
             let path = entry.path();
             let m = gi.matched(path, path.is_dir());
             !m.is_ignore()
